@@ -7,6 +7,34 @@ from .model import norm, walk_no_nested, loc
 NORMALISERS = ("casefold", "lower", "upper", "strip", "title")
 
 
+# the call graph of the run in progress (set by report.Context): lets the key analysis follow a repository helper that
+# produces the key (`self._fold(key)`, `name, value = self._split(tag)`)
+CG = None
+
+
+def _helper_returns(rd, call, index=None):
+    """-> [(ReachingDefs of helper, value expr, return stmt)] for a call that resolves precisely to one repository function;
+    with `index`, the index-th element of tuple returns.  None when the call is not such a helper."""
+    fi = getattr(rd, "fi", None)
+    if CG is None or fi is None or not isinstance(call, ast.Call):
+        return None
+    targets = [t for (k, t) in CG.resolve_call(call, fi) if k == "precise"]
+    if len(targets) != 1:
+        return None
+    h = targets[0]
+    rdh = ReachingDefs(h)
+    out = []
+    for r in walk_no_nested(h.node):
+        if isinstance(r, ast.Return) and r.value is not None:
+            v = r.value
+            if index is not None:
+                if not (isinstance(v, ast.Tuple) and index < len(v.elts)):
+                    return None
+                v = v.elts[index]
+            out.append((rdh, v, r))
+    return out or None
+
+
 def normalisation(rd, expr, at, depth=0):
     """The set of normalisations the key expression may carry: {'casefold'}, {'lower'}, {'raw'}, ..."""
     if depth > 6:
@@ -16,6 +44,13 @@ def normalisation(rd, expr, at, depth=0):
         if expr.func.attr == "strip":
             return normalisation(rd, expr.func.value, at, depth + 1)
         return {expr.func.attr}
+    if isinstance(expr, ast.Call):
+        rets = _helper_returns(rd, expr)
+        if rets:
+            out = set()
+            for rdh, v, r in rets:
+                out |= normalisation(rdh, v, r, depth + 2)
+            return out
     if isinstance(expr, ast.Name):
         defs = rd.at(at, expr.id) if rd is not None else None
         if not defs:
@@ -24,6 +59,9 @@ def normalisation(rd, expr, at, depth=0):
         for d in defs:
             if d.kind == "assign" and d.value is not None:
                 out |= normalisation(rd, d.value, d.node, depth + 1)
+            elif d.kind == "unpack" and isinstance(d.value, ast.Call) and _helper_returns(rd, d.value, d.index):
+                for rdh, v, r in _helper_returns(rd, d.value, d.index):
+                    out |= normalisation(rdh, v, r, depth + 2)
             elif d.kind == "for" and d.value is not None:
                 # iterating a comprehension / list of normalised items
                 out |= _iter_norm(rd, d.value, d.node, depth + 1)
